@@ -582,7 +582,7 @@ def witness_fails(f):
 def run(ctx):
     rng = ctx.rng("histories")
     cases = []
-    for _ in range(ctx.budget(400, 10000)):
+    for _ in range(ctx.budget(1000, 10000)):
         t = X.gen_plain(rng, rng.choice([1, 2, 3]), "d")
         ops = gen_history(rng, t, rng.randrange(1, 8))
         if ops:
@@ -590,13 +590,13 @@ def run(ctx):
     ctx.evaluate("history", cases, check_history, in_known=in_known, nontrivial=lambda c: any(op["op"] == "create" and len(op["steps"]) > 1 for op in c["ops"]))
     rng = ctx.rng("refuse")
     rcases = []
-    for _ in range(ctx.budget(600, 15000)):
+    for _ in range(ctx.budget(1500, 15000)):
         t = X.gen_plain(rng, rng.choice([1, 2, 3]), "d")
         xp = gen_refuse(rng, t)
         if xp:
             rcases.append({"tree": t, "mode": rng.choice(["n0", "wrap"]), "xp": xp})
     nflat = len(rcases)
-    for _ in range(ctx.budget(600, 15000)):
+    for _ in range(ctx.budget(1500, 15000)):
         t = X.gen_plain(rng, rng.choice([1, 2, 3]), "d")
         xp, wrap = gen_refuse_deep(rng, t)
         if xp:
@@ -612,7 +612,7 @@ def run(ctx):
     # anything else is refused
     rng = ctx.rng("hidden")
     hcases = []
-    for _ in range(ctx.budget(500, 12000)):
+    for _ in range(ctx.budget(1200, 12000)):
         c = gen_hidden(rng, X.gen_plain(rng, rng.choice([1, 2, 3]), "d"))
         if c:
             c["mode"] = rng.choice(["n0", "wrap"])
